@@ -39,19 +39,32 @@ def gen_table(rng):
     return {"names": names, "nrow": nrow, "cols": cols}
 
 
+NUMTEXT = {"int": ["007", "00501", "10", "+3", "0"], "float": ["2.50", "1e3", "0.5", "10.0", "-0.0"]}
+
+
 def gen_case(rng, tier):
     reader = rng.choice(READERS)
     t = gen_table(rng)
+    if reader in ("df_csv", "lod_csv") and rng.random() < 0.4 and t["nrow"]:
+        # CSV cells are text: numbers in a non-canonical spelling (leading zeros, exponent, trailing zeros).  Reading
+        # with a dtype mapping must give what reading everything and then casting gives.
+        nm = rng.choice(t["names"])
+        fam = rng.choice(["int", "float"])
+        t["cols"][nm] = [rng.choice(NUMTEXT[fam]) for _ in range(t["nrow"])]
+        t["textual"] = {nm: fam}
     k = rng.randint(0, len(t["names"]))
     restrict = rng.sample(t["names"], k)
     if rng.random() < 0.2:
         restrict = restrict + ["nope"] if reader in ("df_json", "geojson", "lod_json", "lod_csv") else restrict
     cast = {}
-    if rng.random() < 0.5 and reader != "df_npz":
+    if rng.random() < 0.6 and reader != "df_npz":
         pool = restrict or t["names"]
+        if restrict and len(restrict) < len(t["names"]) and rng.random() < 0.25:
+            pool = [x for x in t["names"] if x not in restrict]      # the mapping names a column that is not read
         nm = rng.choice(pool)
-        if nm in t["cols"] and not isinstance(t["cols"][nm][0], str):
-            cast[nm] = "float"
+        numeric = nm in t["cols"] and t["nrow"] and (not isinstance(t["cols"][nm][0], str) or nm in t.get("textual", {}))
+        if numeric:
+            cast[nm] = rng.choice(["float", "str", "str"]) if reader in ("df_csv", "df_json", "df_parquet", "lod_csv", "lod_json") else "float"
     case = {"op": "read", "reader": reader, "table": t, "restrict": restrict, "cast": cast,
             "ragged": rng.random() < 0.4, "encoding": rng.choice(["utf-8", "utf-8", "latin-1", "utf-16"]),
             "sep": rng.choice([",", ",", ";", "\t"]), "header": rng.random() < 0.85}
@@ -66,6 +79,13 @@ def gen_cases(ctx):
         {"op": "read", "reader": "df_parquet", "table": t, "restrict": ["z", "x"], "cast": {"x": "float"}, "ragged": False, "encoding": "utf-8", "sep": ",", "header": True},
         {"op": "read", "reader": "lod_json", "table": {"names": ["id", "ünï"], "nrow": 2, "cols": {"id": [1, 2], "ünï": ["ä", "b"]}}, "restrict": [], "cast": {}, "ragged": False, "encoding": "latin-1", "sep": ",", "header": True},
     ]
+    # every reader: one mapping object names a column that the restricted read does not read, and is then reused for
+    # the unrestricted read (a caller's shared DTYPES dict); the readers must not touch it
+    for reader in READERS:
+        if reader != "df_npz":
+            for ty in ("float", "str"):
+                cases.append({"op": "read", "reader": reader, "table": t, "restrict": ["x"], "cast": {"y": ty, "x": "float"}, "ragged": False,
+                              "encoding": "utf-8", "sep": ",", "header": True})
     n = 300 if ctx.tier == "quick" else 4000
     for _ in range(n):
         cases.append(gen_case(rng, ctx.tier))
@@ -146,20 +166,30 @@ def canon(obj):
     return out
 
 
-def call(case, path, which):
-    """which: 'alias' | 'class' | 'all'"""
-    import dataiter as di
-    reader = case["reader"]
-    t = case["table"]
+PYTYPE = {"float": float, "str": str}
+
+
+def arguments(case):
+    """(restrict list, dtype mapping) as the caller would write them, under the names the file gives the columns"""
+    reader, t = case["reader"], case["table"]
     names = t["names"] if case["header"] or reader not in ("df_csv", "lod_csv") else gen_colnames(len(t["names"]))
     ren = dict(zip(t["names"], names))
-    restrict = [ren.get(x, x) for x in case["restrict"]]
-    cast = {ren.get(k, k): float for k in case["cast"]}
+    return [ren.get(x, x) for x in case["restrict"]], {ren.get(k, k): PYTYPE[v] for k, v in case["cast"].items()}
+
+
+def call(case, path, which, restrict=None, cast=None):
+    """which: 'alias' | 'class' | 'all' | 'all_shared' (everything, but with the caller's own dtype mapping object)"""
+    import dataiter as di
+    reader = case["reader"]
+    if restrict is None:
+        restrict, cast = arguments(case)
     enc = case["encoding"]
     if which == "all":
         restrict, cast = [], {}
+    if which == "all_shared":
+        restrict = []
     if reader == "df_csv":
-        f = di.read_csv if which == "alias" else di.DataFrame.read_csv
+        f = di.read_csv if which in ("alias", "all_shared") else di.DataFrame.read_csv
         return f(path, encoding=enc, sep=case["sep"], header=case["header"], columns=restrict, dtypes=cast)
     if reader == "df_json":
         return di.DataFrame.read_json(path, encoding=enc, columns=restrict, dtypes=cast)
@@ -170,7 +200,7 @@ def call(case, path, which):
         f = di.read_npz if which == "alias" else di.DataFrame.read_npz
         return f(path, allow_pickle=True)
     if reader == "geojson":
-        f = di.read_geojson if which == "alias" else di.GeoJSON.read
+        f = di.read_geojson if which in ("alias", "all_shared") else di.GeoJSON.read
         return f(path, encoding=enc, columns=restrict, dtypes=cast)
     if reader == "lod_json":
         f = di.read_json if which == "alias" else di.ListOfDicts.read_json
@@ -185,11 +215,29 @@ def impl(case):
     res = {}
     try:
         path = write_file(case, d)
-        for which in ("alias", "class", "all"):
+        import copy as _copy
+        import dataiter as di
+        restrict, cast = arguments(case)          # ONE list and ONE mapping object, reused by every call below
+        saved = (_copy.deepcopy(restrict), dict(cast))
+        for which in ("alias", "class", "all", "all_shared"):
             try:
-                res[which] = canon(call(case, path, which))
+                obj = call(case, path, which, restrict, cast)
+                res[which] = canon(obj)
+                if which == "all":
+                    # read everything, then cast with the library's own conversions
+                    if isinstance(obj, di.DataFrame):
+                        for k, ty in saved[1].items():
+                            if k in obj:
+                                obj[k] = obj[k].as_float() if ty is float else obj[k].as_string()
+                    else:
+                        for item in obj:
+                            for k, ty in saved[1].items():
+                                if k in item and item[k] is not None:
+                                    item[k] = ty(item[k])
+                    res["all_cast"] = canon(obj)
             except Exception as e:
                 res[which] = {"__err__": f"{type(e).__name__}: {e}"}
+        res["args_mutated"] = (restrict, cast) != saved
     finally:
         shutil.rmtree(d, ignore_errors=True)
     return res
@@ -263,10 +311,23 @@ def judge(ctx, case, obs, mouts):
             any(k not in allr or (restrict and k not in restrict) for k in cast)
         if not ok_reject:
             ctx.violation("oracle", f"restricted-read-raises:{reader}", f"restricted read raised although the full read works: {cl['__err__']}", case, obs)
+    # a str mapping on a numeric column that has missing cells: the mapped read converts the file's own numbers
+    # (None, '8'), read-everything-then-cast goes through the float column that holds the missing value ('nan', '8.0')
+    strmiss = any(v == "str" and any(x is None or x == "nan" for x in allr.get(ren.get(k, k), [])) for k, v in case["cast"].items())
+    suffix = ":str-cast-missing" if strmiss else ""
+    if "__err__" in cl:
+        pass
     elif reader != "df_npz":
-        exp = select_cast(case, allr, restrict, cast)
+        exp = select_cast(case, obs.get("all_cast", allr), restrict, set())
         if not same_map(cl, exp):
-            ctx.violation("oracle", f"restrict-differs:{reader}", f"restricted read {str(cl)[:200]} != read-all-then-select {str(exp)[:200]}", case, obs, exp)
+            ctx.violation("oracle", f"restrict-differs:{reader}{suffix}", f"restricted read {str(cl)[:200]} != read-all-then-select {str(exp)[:200]}", case, obs, exp)
+    if obs.get("args_mutated"):
+        ctx.violation("oracle", f"argument-mutated:{reader}", "a reader changed the column list / dtype mapping object it was given", case, obs)
+    sh = obs.get("all_shared")
+    if sh is not None and "__err__" not in sh and "all_cast" in obs and reader != "df_npz":
+        # the unrestricted read with the caller's own (reused) mapping object, after the restricted reads
+        if not same_map(sh, select_cast(case, obs["all_cast"], [], set())):
+            ctx.violation("oracle", f"reused-mapping-differs:{reader}{suffix}", f"reading everything with the dtype mapping used before gives {str(sh)[:200]}, read-all-then-cast gives {str(obs['all_cast'])[:200]}", case, obs)
     if mouts:
         m = mouts[0]
         if isinstance(m, dict) and "err" in m:
